@@ -4,18 +4,14 @@ CONSTANTS
   Seeds <- MCSeeds
   Ops <- MCOps
   Scalars <- MCScalars
-  FillPos = {3}
+  FillPos = {3, 11}
   FillW = {1}
   SetDtypes = {"f8"}
   SliceArgs <- MCSliceArgs
   MergeArgs = {2}
-  MaxDepth = 3
+  MaxDepth = 4
   MaxVal = 64
 CHECK_DEADLOCK FALSE
-INVARIANT MulDivIdentity
-INVARIANT NormalTotal
-INVARIANT MomentsScaleInvariant
 INVARIANT WellFormed
 INVARIANT IntHoldsInts
 PROPERTY Independence
-PROPERTY RefusalIsNoOp
